@@ -296,5 +296,5 @@ fn cli_oracle(c: &CliCase, rec: &Rec, ctx: &Ctx) -> Result<(), String> {
 }
 
 pub fn parts() -> Vec<PartDef> {
-    vec![part("work", 12_000, 400_000, work_strat, work_oracle), part("cli", 320, 6_000, cli_strat, cli_oracle)]
+    vec![part("work", 80_000, 1_600_000, work_strat, work_oracle), part("cli", 640, 12_000, cli_strat, cli_oracle)]
 }
